@@ -1,10 +1,10 @@
 #!/bin/bash
-# Re-run every property's quick check against its seeded change on a scratch copy of /repo's CURRENT tree
+# Re-run every property's quick check against its seeded change(s) (seeded/<ID> and seeded/<ID>b) on a scratch copy of /repo's CURRENT tree
 # (VERIF_REPO), N at a time; results in seeded/<id>/meta.json (field "on_current_tree") and on stdout.
 N=${1:-5}
 cd "$(dirname "$0")"
 one() {
-  id=$1
+  id=$1; prop=${id:0:3}
   W=/var/tmp/verif-seedrun/$id; rm -rf $W; mkdir -p $W
   rsync -a --exclude /target --exclude /website /repo/ $W/repo/
   how=clean
@@ -13,7 +13,7 @@ one() {
     git -C $W/repo apply --3way /verif/seeded/$id/patch.diff >/dev/null 2>&1 || how=conflict
   fi
   if [ $how = conflict ]; then out="patch does not apply to the current tree"; else
-    out=$(VERIF_REPO=$W/repo VERIF_EVIDENCE_DIR=$W/evidence ./check $id --tier quick 2>&1 | grep -E "^(VIOLATION|OK|INCONCLUSIVE)" | head -2 | tr "\n" " ")
+    out=$(VERIF_REPO=$W/repo VERIF_EVIDENCE_DIR=$W/evidence ./check $prop --tier quick 2>&1 | grep -E "^(VIOLATION|OK|INCONCLUSIVE)" | head -2 | tr "\n" " ")
   fi
   python3 - "$id" "$how" "$out" <<'PY'
 import json, sys
